@@ -509,6 +509,15 @@ func (r *resolver) regularImports(ctx context.Context, ver resolve.VersionKey, i
 		deps       = make([]resolve.RequirementVersion, 0, len(imps))
 	)
 
+	// Sections of a manifest override each other by key, which for an
+	// aliased dependency is the alias and not the package's name.
+	key := func(d resolve.RequirementVersion) string {
+		if alias, ok := d.Type.GetAttr(dep.KnownAs); ok && alias != "" {
+			return alias
+		}
+		return d.Name
+	}
+
 	for _, d := range imps {
 		if debug {
 			log.Printf("%s regularImports %s %s", ver, d.Version, d.Type)
@@ -518,10 +527,10 @@ func (r *resolver) regularImports(ctx context.Context, ver resolve.VersionKey, i
 			continue
 		}
 		if d.Type.HasAttr(dep.Opt) {
-			optPackage[d.Name] = true
+			optPackage[key(d)] = true
 		}
 		if d.Type.IsRegular() {
-			regPackage[d.Name] = true
+			regPackage[key(d)] = true
 		}
 	}
 
@@ -531,7 +540,7 @@ func (r *resolver) regularImports(ctx context.Context, ver resolve.VersionKey, i
 		if d.Type.HasAttr(dep.Dev) {
 			continue
 		}
-		if !d.Type.HasAttr(dep.Opt) && optPackage[d.Name] {
+		if !d.Type.HasAttr(dep.Opt) && optPackage[key(d)] {
 			continue
 		}
 		// If the requirement points to a derived package, the requirement
@@ -548,7 +557,7 @@ func (r *resolver) regularImports(ctx context.Context, ver resolve.VersionKey, i
 		// dependencies.
 		switch scope, _ := d.Type.GetAttr(dep.Scope); scope {
 		case "bundle":
-			if regPackage[d.Name] {
+			if regPackage[key(d)] {
 				continue
 			}
 		case "peer":
